@@ -90,7 +90,7 @@ func (p *Program) parseContracts(path string, overlay []byte) error {
 		ln   int
 	}
 	var lines []lline
-	reStart := regexp.MustCompile(`^(func|interface|spec|lemma|axiom|autolemma|autoaxiom|foldaxiom|comparable|appendlemma|fieldinv|eleminv|typeinv|requires|ensures|assumes|invariant|preserves|decreases|assigns|inline|use|props|trust|check|loop|ghost|abstract|bounded|results|pure)\b`)
+	reStart := regexp.MustCompile(`^(func|interface|spec|lemma|axiom|autolemma|autoaxiom|foldaxiom|comparable|appendlemma|ghostmap|guarded|fieldinv|eleminv|typeinv|requires|ensures|assumes|invariant|preserves|decreases|assigns|inline|use|props|trust|check|loop|ghost|abstract|bounded|results|pure)\b`)
 	for ln, raw := range rawLines {
 		t := strings.TrimSpace(raw)
 		if !strings.HasPrefix(t, "//@") {
@@ -162,6 +162,52 @@ func (p *Program) parseContracts(path string, overlay []byte) error {
 				return fail("appendlemma <elem type> <lemma>")
 			}
 			p.appendLemmas[f[1]] = append(p.appendLemmas[f[1]], f[2])
+			cur = nil
+			last = nil
+			continue
+		case strings.HasPrefix(t, "ghostmap "):
+			// ghostmap #name KeyType
+			f := strings.Fields(t)
+			if len(f) < 3 || !strings.HasPrefix(f[1], "#") {
+				return fail("ghostmap #name <key type>")
+			}
+			p.ghostMaps[f[1]] = strings.Join(f[2:], " ")
+			cur = nil
+			last = nil
+			continue
+		case strings.HasPrefix(t, "guarded "):
+			// guarded T.f by mu [stable]
+			f := strings.Fields(t)
+			if len(f) < 4 || f[2] != "by" {
+				return fail("guarded T.f by <mutex field> [stable]")
+			}
+			dot := strings.Index(f[1], ".")
+			if dot < 0 {
+				return fail("guarded T.f by <mutex field>")
+			}
+			tn, fn := f[1][:dot], f[1][dot+1:]
+			obj := p.pkg.Types.Scope().Lookup(tn)
+			if obj == nil {
+				return fail("guarded: unknown type %s", tn)
+			}
+			st, ok := structOf(obj.Type())
+			if !ok {
+				return fail("guarded: %s is not a struct", tn)
+			}
+			fi, mi := -1, -1
+			for i := 0; i < st.NumFields(); i++ {
+				if st.Field(i).Name() == fn {
+					fi = i
+				}
+				if st.Field(i).Name() == f[3] {
+					mi = i
+				}
+			}
+			if fi < 0 || mi < 0 {
+				return fail("guarded: %s needs direct fields %s and %s", tn, fn, f[3])
+			}
+			arr, _ := p.fieldArray(obj.Type(), fi)
+			p.guards[arr] = guardInfo{muField: f[3], muOff: fieldOffset(st, mi), stable: len(f) > 4 && f[4] == "stable"}
 			cur = nil
 			last = nil
 			continue
